@@ -583,7 +583,9 @@ def check_forwarding(ck, F, tr, imp, iname, m):
     # any wrapper: a notification (a method returning `()`) may be withheld only for a reason found in the wrapper's own
     # state -- the Option is None, the Vec is exhausted, the filter said no, the lock is poisoned. A path that returns
     # without forwarding and without having looked at `self` at all drops the notification for an unrelated reason.
-    if top.raw.get("locals") and str(top.raw["locals"][0]) == "()" and all(b is top for b, bb, t in fwd) and name != "on_subscribe":
+    # (the same for a method that answers a question: an answer that is neither the wrapped value's nor chosen by looking at
+    # the wrapper's own state -- `if panicking() { return None }` -- is a made-up one)
+    if top.raw.get("locals") and all(b is top for b, bb, t in fwd) and name != "on_subscribe":
         from rulekit.sym import PathEval, show
         fbs = {bb for b, bb, t in fwd}
         try:
